@@ -32,7 +32,7 @@ BOUNDS = {
 POSOPS = '{"Prefix", "Suffix", "CutChars", "DelLine", "DupLine", "SwapLines", "DelToken", "DupToken", "SwapTokens", "BreakLine", "JoinLines", "OddSpace", "Flatten"}'
 
 
-def base_programs(wd, n, rng):
+def base_programs(wd, n, rng, harvest=2):
     consts = dict(MaxItems=7, MaxDepth=3, Reps="{2}", FVariants='{"plain", "multi", "bracegroup"}', SVariants='{"plain", "strdelim", "trailing"}', CVariants='{"if", "try"}', Allowed='{"F","K","C","E","A","X","S","M","R"}')
     m = tlc.run("Program", tlc.cfg(consts, spec="Spec", invariants=["Sane"]), wd, dump=True, cfgname="Program_bases.cfg", coverage=False)
     chunks = [c for c in dump_chunks(m.dump) if "done = TRUE" in c]
@@ -49,6 +49,15 @@ def base_programs(wd, n, rng):
             break
     for lang in out:
         out[lang] += EXTRA_BASES.get(lang, [])
+    # texts of the repository's own tests (the shapes its maintainers document), a few per language and run
+    from ..langs import harvested_texts
+
+    per = {}
+    for lang, _origin, text in harvested_texts():
+        per.setdefault(lang, []).append(text)
+    for lang, xs in per.items():
+        rng.shuffle(xs)
+        out[lang] += xs[:harvest]
     return out, m
 
 
@@ -66,17 +75,16 @@ def decode_like_scanner(data: bytes, wd_file: Path):
             return data.decode("latin-1")
 
 
-_SCR = None
+_SCR = {}
 
 
 def _scratch():
-    global _SCR
-    if _SCR is None:
-        _SCR = scratch_dir("c03")
-        import atexit
-
-        atexit.register(shutil.rmtree, str(_SCR), True)
-    return _SCR
+    """One scratch directory per PROCESS (pool workers are forked and would otherwise share the parent's)."""
+    pid = os.getpid()
+    if pid not in _SCR:
+        _SCR.clear()
+        _SCR[pid] = scratch_dir("c03")  # lives under the run's scratch root, removed with it
+    return _SCR[pid]
 
 
 def observe_input(arg):
@@ -249,7 +257,7 @@ def run_generic(prop: str, tier: str) -> int:
     rep = Reporter(prop)
     wd = workdir(prop)
     rng = random.Random(seed() * 71 + 3)
-    bases, pm = base_programs(wd, b["bases"], rng)
+    bases, pm = base_programs(wd, b["bases"], rng, harvest=2 if tier == "quick" else 8)
     nb = max(len(v) for v in bases.values())
     consts = {"NBases": nb, "MaxPos": b["maxpos"], "MaxOps": 1, "OpKinds": POSOPS.replace("}", ', "Soup", "DeepNest", "Bytes"}'), "SoupAlphabet": 16, "MaxSoup": b["soup"], "NestDepths": b["nest"],
               "ByteKinds": "{" + ", ".join(str(i) for i in range(1, len(BYTE_KINDS) + 1)) + "}"}
@@ -290,6 +298,11 @@ def run_generic(prop: str, tier: str) -> int:
         for lang, path, text in corpus_files():
             jobs.append((lang, text, True))
             meta.append((lang, -2, [{"k": "corpus", "a": path.name}]))
+        from ..langs import harvested_texts
+
+        for lang, origin, text in harvested_texts():
+            jobs.append((lang, text, True))
+            meta.append((lang, -2, [{"k": "corpus", "a": origin}]))
     res = pmap(observe_input, jobs, timeout=30, chunk=128)
     # a time-out is only reported if it reproduces with ten times the budget
     for k, r in enumerate(res):
